@@ -285,6 +285,30 @@ func GovSetStorageParams(e *Env, p storagetypes.Params) bool {
 	}
 	if !ok {
 		e.App.StorageKeeper.SetParams(e.Ctx, p)
+	} else {
+		// what governance stored under the parameters' names is what the module now reads
+		rv := reflect.ValueOf(StorageParams(e))
+		for i := 0; i < nv.NumField(); i++ {
+			name := nv.Type().Field(i).Name
+			if _, known := storageParamKeys[name]; !known {
+				continue
+			}
+			a, _ := json.Marshal(rv.Field(i).Interface())
+			b, _ := json.Marshal(nv.Field(i).Interface())
+			if string(a) != string(b) {
+				paramBindingMismatch(fmt.Sprintf("after passed proposals that name the storage parameters one by one (here %s = %s), the module reads %s = %s", storageParamKeys[name], b, name, a))
+			}
+		}
 	}
 	return ok
+}
+
+// paramBindingMismatches: a parameter named in a passed proposal landed in a different field of the module's
+// parameters (reported by main under the running property's own signature)
+var paramBindingMismatches []string
+
+func paramBindingMismatch(what string) {
+	if len(paramBindingMismatches) < 3 {
+		paramBindingMismatches = append(paramBindingMismatches, what)
+	}
 }
